@@ -754,6 +754,68 @@ pub fn hook_forbidden(what: &'static str, fd: i32, path: Option<&[u8]>, real: im
     r
 }
 
+/// `rename` inside a store directory. C14 forbids it for store files, so it is recorded as a breach
+/// of the file discipline; but it is also *applied to the shadow* (the file continues under its
+/// new name with its written and synced lengths, a file that was at the destination is gone), so
+/// that crash images, the hint-file comparison and the shadow-versus-disk check stay truthful for
+/// a tree that writes files through a temporary name.
+pub fn hook_rename(old: &[u8], new: &[u8], real: impl FnOnce() -> i64) -> i64 {
+    let (sim, me) = match tracked() {
+        Some(x) => x,
+        None => return real(),
+    };
+    let (src, dst) = {
+        let mut fs = lock(sim);
+        if fs.frozen {
+            drop(fs);
+            return real();
+        }
+        let a = fs.rel(old).map(|r| fs.path_id(&r));
+        let b = fs.rel(new).map(|r| fs.path_id(&r));
+        (a, b)
+    };
+    if src.is_none() && dst.is_none() {
+        return real();
+    }
+    sim.yield_point(me, Kind::IoOther, true);
+    let r = real();
+    let now = sim.now_ns();
+    let step = sim.step();
+    let mut fs = lock(sim);
+    let pid = src.or(dst).unwrap();
+    let seq = fs.push(now, step, me, IoOp::Forbidden, pid, -1, 0, 0, r, false, "rename");
+    let m = format!("rename applied to store file {} -> {}", src.map(|p| fs.paths[p as usize].clone()).unwrap_or_else(|| "(outside)".into()), dst.map(|p| fs.paths[p as usize].clone()).unwrap_or_else(|| "(outside)".into()));
+    fs.discipline.push(m);
+    if r >= 0 {
+        // whatever was at the destination is gone
+        if let Some(d) = dst {
+            if let Some(i) = fs.live_inc(d) {
+                fs.incs[i].unlinked_seq = Some(seq);
+            }
+        }
+        if let Some(sp) = src {
+            if let Some(i) = fs.live_inc(sp) {
+                fs.incs[i].unlinked_seq = Some(seq);
+                if let Some(d) = dst {
+                    let old_inc = fs.incs[i].clone();
+                    let len = old_inc.data.len() as u64;
+                    let synced = old_inc.syncs.last().map(|s| s.1).unwrap_or(0).min(len);
+                    let inc = FileInc { path: d, data: old_inc.data, created_seq: seq, unlinked_seq: None, lens: vec![(seq, len)], syncs: vec![(seq, synced)], creator_fd: old_inc.creator_fd, creator_open: old_inc.creator_open, adopted: old_inc.adopted };
+                    fs.incs.push(inc);
+                    let idx = fs.incs.len() - 1;
+                    fs.by_path.entry(d).or_default().push(idx);
+                    for info in fs.fds.values_mut() {
+                        if info.inc == i {
+                            info.inc = idx;
+                        }
+                    }
+                }
+            }
+        }
+    }
+    r
+}
+
 // ------------------------------------------------------------------------------------------
 // harness-side helpers
 
